@@ -162,6 +162,22 @@ pub fn suite_clirt(dir: &str, seed: u64, thorough: bool, st: &mut Stats) {
         s.write("src.bin", &c.src);
         let mut args: Vec<String> = vec!["compress".into(), "-i".into(), "src.bin".into()];
         args.extend(compress_args(&c));
+        if i % 3 == 0 && !c.meta.is_empty() {
+            // the same metadata given through files (binary safe) instead of on the command line
+            let mut a2: Vec<String> = vec![];
+            let mut it = args.into_iter();
+            let mut n = 0;
+            while let Some(x) = it.next() {
+                if x == "--metadata-value" {
+                    let k = it.next().unwrap(); let _ = it.next();
+                    let f = format!("meta{}.bin", n); n += 1;
+                    std::fs::write(s.p(&f), &c.meta[&k]).unwrap();
+                    a2.extend(["--metadata-file".to_string(), k, f]);
+                } else { a2.push(x); }
+            }
+            args = a2;
+            st.count("clirt/metadata-file");
+        }
         args.push("--buffered-chunks".into()); args.push(format!("{}", rng.pick(&[1, 2, 3, 8, 64])));
         args.push("out.cba".into());
         let argv: Vec<&str> = args.iter().map(|x| x.as_str()).collect();
@@ -180,6 +196,7 @@ pub fn suite_clirt(dir: &str, seed: u64, thorough: bool, st: &mut Stats) {
         if let Err(what) = c11_oracle(&c, &archive) { st.violation("C11", &format!("CLI archive: {}", what), &replay); }
         // leaves exactly one new file
         let l = s.listing();
+        let l: Vec<String> = l.into_iter().filter(|f| !(f.starts_with("meta") && f.ends_with(".bin"))).collect();
         if l != vec!["out.cba".to_string(), "src.bin".to_string()] { st.violation("C16", &format!("compress left {:?}", l), &replay); }
         // C11 (file ends at the last stored chunk) when an existing, larger output is overwritten
         if i % 4 == 1 {
@@ -327,9 +344,20 @@ pub fn suite_cliclone(dir: &str, seed: u64, thorough: bool, st: &mut Stats) {
         let nseeds = rng.below(3) as usize;
         let seeds: Vec<Vec<u8>> = (0..nseeds).map(|_| if rng.chance(2, 3) { edit(&mut rng, &c.src) } else { gen_data(&mut rng, 2000).0 }).collect();
         let stdin_seed = if rng.chance(1, 4) { Some(edit(&mut rng, &c.src)) } else { None };
-        let srv = ScriptServer::start(archive.clone(), vec![]);
+        // an unreliable but honest server for some cases: failing transfers within the retry budget given on the
+        // command line must not change anything but the number of requests
+        let nfail = if rng.chance(1, 4) { rng.range(1, 3) as usize } else { 0 };
+        let script: Vec<SItem> = if nfail == 0 { vec![] } else {
+            let mut v: Vec<SItem> = (0..rng.range(nfail as u64, 6)).map(|_| SItem::Ok).collect();
+            for _ in 0..nfail { let k = rng.below(v.len() as u64) as usize; v[k] = if rng.chance(1, 2) { SItem::Refuse } else { SItem::Cut(rng.below(200) as usize) }; }
+            v
+        };
+        let nfail = script.iter().filter(|x| !matches!(x, SItem::Ok)).count();
+        let srv = ScriptServer::start(archive.clone(), script);
         let url = srv.url();
         let mut cargs: Vec<String> = vec!["clone".into()];
+        if nfail > 0 { cargs.extend(["--http-retry-count".to_string(), format!("{}", nfail + rng.below(2) as usize), "--http-retry-delay".to_string(), "0".to_string()]); }
+        if rng.chance(1, 2) { cargs.extend(["--buffered-chunks".to_string(), format!("{}", rng.pick(&[1, 2, 7, 32]))]); }
         if kind != "new" { s.write("out.bin", &prior); cargs.push("--seed-output".into()); }
         for (k, sd) in seeds.iter().enumerate() { s.write(&format!("seed{}.bin", k), sd); cargs.push("--seed".into()); cargs.push(format!("seed{}.bin", k)); }
         if stdin_seed.is_some() { cargs.push("--seed".into()); cargs.push("-".into()); }
@@ -376,6 +404,17 @@ pub fn suite_cliclone(dir: &str, seed: u64, thorough: bool, st: &mut Stats) {
         }
         let data_reqs: Vec<(u64, u64)> = reqs.iter().copied().filter(|(o, _)| *o >= hdr_len).collect();
         let hdr_reqs: Vec<(u64, u64)> = reqs.iter().copied().filter(|(o, _)| *o < hdr_len).collect();
+        if nfail > 0 {
+            // transfer retries aside: every chunk data request is an expected run or the rest of one (resume), every
+            // run was asked for from its first byte, header reads are the two header ranges (possibly repeated)
+            let ok_data = data_reqs.iter().all(|q| runs.iter().any(|r| q.0 >= r.0 && q.0 + q.1 == r.0 + r.1)) && runs.iter().all(|r| data_reqs.iter().any(|q| q.0 == r.0 && q.1 == r.1));
+            let ok_hdr = hdr_reqs.iter().all(|q| *q == (0, 14) || *q == (14, hdr_len - 14)) && hdr_reqs.contains(&(0, 14)) && hdr_reqs.contains(&(14, hdr_len - 14));
+            if !ok_data || !ok_hdr {
+                st.violation("C06", &format!("with {} failing transfers: requests {} / {} do not fit the missing runs {}", nfail, log_str(&hdr_reqs), log_str(&data_reqs), log_str(&runs)), &replay);
+            }
+            st.count("cliclone/failing-transfers-within-retry-budget");
+            return;
+        }
         if data_reqs != runs {
             st.violation("C06", &format!("chunk data requested {} but missing chunks are {}", log_str(&data_reqs), log_str(&runs)), &replay);
             // C07: one request per maximal run of adjacent wanted chunks -- the requests overlap / repeat, or two of
